@@ -182,7 +182,9 @@ class StressReal(Case):
         p = self.params
         sh = shell_spec(mk, "A", p["l"], 1, 1)
         nb = (p["l"] + 1) * (p["l"] + 2) // 2
-        return dict(sh=sh, P=sym_matrix(mk, nb), pt=[mk.var("p" + x) for x in "xyz"])
+        nt = p.get("nt")
+        T = [[mk.var(f"T{i}_{j}") for j in range(nb)] for i in range(nt)] if nt else None
+        return dict(sh=sh, P=sym_matrix(mk, nt or nb), pt=[mk.var("p" + x) for x in "xyz"], T=T)
 
     def code(self, I, mk):
         import gbasis.evals.stress_tensor as st
@@ -196,6 +198,8 @@ class StressReal(Case):
         b = int(b) if b.denominator == 1 else float(b)
         P, pts = mk.array(I["P"]), mk.array([I["pt"]])
         f = {"stress": st.evaluate_stress_tensor, "force": st.evaluate_ehrenfest_force, "hessian": st.evaluate_ehrenfest_hessian}[p["fn"]]
+        if I["T"] is not None:
+            return {"out": f(P, basis, pts, alpha=a, beta=b, transform=mk.array(I["T"]))}
         return {"out": f(P, basis, pts, alpha=a, beta=b)}
 
     def ref(self, I, ops, mk):
@@ -207,7 +211,10 @@ class StressReal(Case):
 
         def jet(o):
             if o not in cache:
-                cache[o] = G.eval_shell(ops, I["sh"], I["pt"], o, normalise=True)[0]
+                v = G.eval_shell(ops, I["sh"], I["pt"], o, normalise=True)[0]
+                if I["T"] is not None:  # the transformed functions: rows of T applied to the contractions
+                    v = [sum((I["T"][i][j] * v[j] for j in range(len(v))), ops.zero) for i in range(len(I["T"]))]
+                cache[o] = v
             return cache[o]
 
         def ev(expr):
@@ -236,6 +243,10 @@ def cases(tier, seed=0):
     out.append(StressReal(fn="hessian", l=0, alpha="1/2", beta="1"))
     out.append(StressReal(fn="force", l=0, alpha="0", beta="2"))
     out.append(StressReal(fn="stress", l=1, alpha="1/2", beta="1"))
+    # with a rectangular transformation matrix (2 x 3 on a p shell), end to end
+    out.append(StressReal(fn="hessian", l=1, alpha="1", beta="1/2", nt=2, heavy=True))
+    out.append(StressReal(fn="force", l=1, alpha="1/2", beta="1", nt=2))
+    out.append(StressReal(fn="stress", l=1, alpha="0", beta="1", nt=2))
     if tier == "thorough":
         out.append(StressReal(fn="hessian", l=1, alpha="0", beta="1/2"))
         out.append(StressReal(fn="force", l=1, alpha="2", beta="1"))
